@@ -245,13 +245,194 @@ func c27hash(s string) uint64 { // FNV-1a (own copy: C26's helper lives in anoth
 	return h
 }
 
+// ---- reuse of one URI object across parses ----------------------------------------------------------------------
+// For ordered pairs (A, B) of a reduced URI set: A is parsed into a URI object and fully used (all getters, QueryArgs,
+// FullURI, RequestURI), then B is parsed into the SAME object (directly; through ReleaseURI/AcquireURI; or B's URI is
+// copied over it with CopyTo). Every getter, the query arguments and the serialise/re-parse results must equal those
+// of B parsed into a fresh URI.
+
+type c27Obs struct{ name, val string }
+
+// c27Observe applies a fixed sequence of getters / serialisations / re-parses to u.
+func c27Observe(u *URI) []c27Obs {
+	var o []c27Obs
+	add := func(n, v string) { o = append(o, c27Obs{n, v}) }
+	add("scheme", string(u.Scheme()))
+	add("host", string(u.Host()))
+	add("path", string(u.Path()))
+	add("path-original", string(u.PathOriginal()))
+	add("query-string", string(u.QueryString()))
+	add("fragment", string(u.Hash()))
+	add("username", string(u.Username()))
+	add("password", string(u.Password()))
+	full1 := string(u.FullURI()) // QueryArgs() not used yet on this parse
+	add("fulluri", full1)
+	add("requesturi", string(u.RequestURI()))
+	add("query-args", fmt.Sprint(c27Args(u)))
+	add("query-args-len", fmt.Sprint(u.QueryArgs().Len()))
+	full2 := string(u.FullURI())
+	add("fulluri-after-queryargs", full2)
+	req2 := string(u.RequestURI())
+	add("requesturi-after-queryargs", req2)
+	for i, f := range []string{full1, full2} {
+		var v URI
+		tag := []string{"fulluri-reparse", "fulluri-after-queryargs-reparse"}[i]
+		if err := v.Parse(nil, []byte(f)); err != nil {
+			add(tag, "error: "+err.Error())
+			continue
+		}
+		p := c27Snapshot(&v, true)
+		add(tag, fmt.Sprintf("%s|%s|%s|%s|%v", p.scheme, p.host, p.path, p.hash, p.args))
+	}
+	var w URI
+	if err := w.Parse(u.Host(), []byte(req2)); err != nil {
+		add("requesturi-reparse", "error: "+err.Error())
+	} else {
+		p := c27Snapshot(&w, true)
+		add("requesturi-reparse", fmt.Sprintf("%s|%v", p.path, p.args))
+	}
+	return o
+}
+
+var c27ReuseModes = []string{"same-object", "release-acquire", "copyto-parsed-src", "copyto-unparsed-src"}
+
+func c27ReusePair(r *vrt.R, a, b string, want []c27Obs, mode string) {
+	var got []c27Obs
+	switch mode {
+	case "same-object":
+		var u URI
+		if err := u.Parse(nil, []byte(a)); err != nil {
+			r.ToolError("reuse set: %q rejected: %v", a, err)
+		}
+		c27Observe(&u)
+		if err := u.Parse(nil, []byte(b)); err != nil {
+			r.Violation("reuse-"+mode+":second-parse-rejected", fmt.Sprintf("Parse(%q) then Parse(%q) on the same URI: %v", a, b, err), map[string]string{"a": strconv.QuoteToASCII(a), "b": strconv.QuoteToASCII(b), "mode": mode})
+			return
+		}
+		got = c27Observe(&u)
+	case "release-acquire":
+		u := AcquireURI()
+		if err := u.Parse(nil, []byte(a)); err != nil {
+			r.ToolError("reuse set: %q rejected: %v", a, err)
+		}
+		c27Observe(u)
+		ReleaseURI(u)
+		u = AcquireURI()
+		if err := u.Parse(nil, []byte(b)); err != nil {
+			r.Violation("reuse-"+mode+":second-parse-rejected", fmt.Sprintf("Parse(%q), ReleaseURI, AcquireURI, Parse(%q): %v", a, b, err), map[string]string{"a": strconv.QuoteToASCII(a), "b": strconv.QuoteToASCII(b), "mode": mode})
+			ReleaseURI(u)
+			return
+		}
+		got = c27Observe(u)
+		ReleaseURI(u)
+	default: // CopyTo over a used URI
+		var dst, src URI
+		if err := dst.Parse(nil, []byte(a)); err != nil {
+			r.ToolError("reuse set: %q rejected: %v", a, err)
+		}
+		c27Observe(&dst)
+		if err := src.Parse(nil, []byte(b)); err != nil {
+			r.ToolError("reuse set: %q rejected: %v", b, err)
+		}
+		if mode == "copyto-parsed-src" {
+			src.QueryArgs()
+		}
+		src.CopyTo(&dst)
+		got = c27Observe(&dst)
+	}
+	for i := range want {
+		if i >= len(got) || got[i] != want[i] {
+			g := "<missing>"
+			if i < len(got) {
+				g = got[i].val
+			}
+			r.Violation("reuse-"+mode+":"+want[i].name+"-"+c27Diff(g, want[i].val),
+				fmt.Sprintf("%s: URI object that held %q, then %q: %s = %q, a fresh URI gives %q", mode, a, b, want[i].name, g, want[i].val),
+				map[string]string{"a": strconv.QuoteToASCII(a), "b": strconv.QuoteToASCII(b), "mode": mode})
+			return
+		}
+	}
+}
+
+func c27ReuseSet(maxDev int) []string {
+	schemes := []string{"http", "https"}
+	users := []string{"", "u:p@"}
+	hosts := []string{"example.com", "h", "[::1]:80"}
+	paths := []string{"", "/a/b", "/a%20b/../c"}
+	queries := []string{"", "?", "?a=1&b=2", "?x=1&flag", "?flag", "?a=1&a=2&c=3", "?k&l&m", "?a=%20+&b", "?long=value-value-value&s=1&t"}
+	frags := []string{"", "#f"}
+	var out []string
+	seqx.Product([]int{len(schemes), len(users), len(hosts), len(paths), len(queries), len(frags)}, maxDev, func(ix []int) bool {
+		out = append(out, schemes[ix[0]]+"://"+users[ix[1]]+hosts[ix[2]]+paths[ix[3]]+queries[ix[4]]+frags[ix[5]])
+		return true
+	})
+	return out
+}
+
+func c27Reuse(r *vrt.R) {
+	set := c27ReuseSet(vrt.Pick(r, 2, 3))
+	wants := make([][]c27Obs, len(set))
+	wantsParsed := make([][]c27Obs, len(set)) // reference for a source on which QueryArgs() was already used
+	for i, s := range set {
+		var u, v URI
+		if err := u.Parse(nil, []byte(s)); err != nil {
+			r.ToolError("reuse set: %q rejected: %v", s, err)
+		}
+		wants[i] = c27Observe(&u)
+		v.Parse(nil, []byte(s)) //nolint:errcheck
+		v.QueryArgs()
+		wantsParsed[i] = c27Observe(&v)
+	}
+	r.Set("reuse_uri_set", len(set))
+	r.Par(len(set), func(i int) {
+		if r.Expired() {
+			r.NotExhaustive("time budget reached in the URI reuse pairs")
+			return
+		}
+		n := 0
+		for j := range set {
+			for _, mode := range c27ReuseModes {
+				w := wants[j]
+				if mode == "copyto-parsed-src" {
+					w = wantsParsed[j]
+				}
+				c27ReusePair(r, set[i], set[j], w, mode)
+				n++
+			}
+			if i != j {
+				r.NontrivialHash(c27hash("reuse|" + set[i] + "|" + set[j]))
+			}
+		}
+		r.Eval(n)
+		r.Add("reuse_pair_cases", int64(n))
+	})
+	r.Sample(map[string]any{"reuse_pair": []string{set[1], set[len(set)-1]}, "modes": c27ReuseModes})
+}
+
 func TestVerif_C27(t *testing.T) {
 	r := vrt.Begin(t, "C27", "exploration")
 	defer r.End()
 	if rp := r.Replay(); rp != nil {
-		var a struct{ URI string }
+		var a struct{ URI, A, B, Mode string }
 		if err := json.Unmarshal(rp, &a); err != nil {
 			r.ToolError("replay artefact: %v", err)
+		}
+		if a.Mode != "" {
+			ua, err1 := strconv.Unquote(a.A)
+			ub, err2 := strconv.Unquote(a.B)
+			if err1 != nil || err2 != nil {
+				r.ToolError("replay artefact a/b: %v %v", err1, err2)
+			}
+			var u URI
+			if err := u.Parse(nil, []byte(ub)); err != nil {
+				r.ToolError("replay: %q rejected: %v", ub, err)
+			}
+			if a.Mode == "copyto-parsed-src" {
+				u.QueryArgs()
+			}
+			c27ReusePair(r, ua, ub, c27Observe(&u), a.Mode)
+			r.Eval(1)
+			return
 		}
 		s, err := strconv.Unquote(a.URI)
 		if err != nil {
@@ -281,7 +462,8 @@ func TestVerif_C27(t *testing.T) {
 	r.Rule(fmt.Sprintf("absolute URIs scheme%q x userinfo%q x host%q x port%q x path%q x query%q x fragment%q (%s: %d URIs) plus \"http://h\" followed by every string of at most %d symbols of %q (%d URIs); "+
 		"oracle: Parse(nil,FullURI()) keeps scheme/host/path/query args/fragment (+identical query string when QueryArgs() unused), Parse(Host(),RequestURI()) keeps path/query args, "+
 		"both also after QueryArgs() was used; hosts holding a literal %% are skipped for these; for http/https URIs accepted by fasthttp and net/url: Host()==lower(net/url Host), QueryString()==RawQuery; "+
-		"non-trivial: accepted URIs whose FullURI() differs from the input", schemes, users, hosts, ports, paths, queries, frags, devText, seqx.ProductCount(dims, maxDev), maxLen, alpha, seqx.CountStrings(len(alpha), maxLen)))
+		"non-trivial: accepted URIs whose FullURI() differs from the input. Reuse: all ordered pairs (A,B) of a reduced URI set (queries with/without values, key-only args, different counts, hosts, paths, fragments, userinfo), "+
+		"B parsed into the URI object that held A (same object / ReleaseURI+AcquireURI / CopyTo) must show the getters, query args and re-parse results of B in a fresh URI", schemes, users, hosts, ports, paths, queries, frags, devText, seqx.ProductCount(dims, maxDev), maxLen, alpha, seqx.CountStrings(len(alpha), maxLen)))
 	r.Assume("net/url.Parse is the reference for host and raw query of http/https URIs (only where it accepts the URI)")
 	r.Set("max_symbols", maxLen)
 	r.Set("slot_product_max_deviation", maxDev)
@@ -306,6 +488,9 @@ func TestVerif_C27(t *testing.T) {
 		err := u.Parse(nil, []byte(prod[i]))
 		r.Sample(map[string]any{"uri": strconv.QuoteToASCII(prod[i]), "parse_error": fmt.Sprint(err), "full_uri": strconv.QuoteToASCII(string(u.FullURI()))})
 	}
+
+	// ---- one URI object used for two parses ----
+	c27Reuse(r)
 
 	// ---- reserved-character strings appended to http://h, sharded by the first two symbols ----
 	k := len(alpha)
